@@ -18,7 +18,7 @@ def run(tier):
     rg.run_lens("GaussCat")
     out.add_replay(rg, "gaussops")
     events = rp.events
-    jr, n_ok, n_bad, n_undef = judge_events(out, events, "C14", lambda e: "%s|%s" % (e["what"], e["sig"]))
+    jr, n_ok, n_bad, n_undef = judge_events(out, events, "C14", lambda e: "%s|%s" % (e["what"], e["sig"]), timeout=300 if tier == "quick" else 2400)
     cov = check.replay_coverage(
         rp, "every log-density tensor of the generator (1-3 inputs, minus-infinity patterns) x every non-empty subset "
             "of sampled variables x 0-2 sample inputs x 3 seeds, each drawn twice; the returned term is validated by "
